@@ -28,7 +28,7 @@ Proof.
   apply sorted_lookup; [apply (I_alloc_sorted s I)|]. apply (I_st_alloc s I). left. now apply (I_tab_st s I).
 Qed.
 
-Lemma C18_recv_panic_keeps_pending_l : forall s h s',
+Remark recv_panic_keeps_pending : forall s h s',
   (step s (RecvPanic h) = Some s' \/ step s (FailPanic h) = Some s') ->
   tab s' = tab s /\ ent s' = ent s /\ alloc s' = alloc s /\ loops s' h = LIdle (epoch s').
 Proof.
@@ -60,8 +60,8 @@ Lemma C18_leftover_retried_l :
   (forall x c, sendloop x = true -> NoDup (inb x) ->
      (forall c', In c' (inb x) -> e_st (ent (core x) c') = Queued) ->
      In c (inb x) -> e_canceled (ent (core x) c) = false ->
-     exists x1 x2 lim i, xstep x XWake = Some x1 /\ core x1 = core x /\ inb x1 = inb x
-       /\ xstep x1 (XBuildRound lim (inb x)) = Some x2 /\ e_st (ent (core x2) c) = Built i /\ inb x2 = [])
+     exists x1, xstep x XWake = Some x1 /\ core x1 = core x /\ inb x1 = inb x
+       /\ forall lim, exists x2 i, xstep x1 (XBuildRound lim (inb x)) = Some x2 /\ e_st (ent (core x2) c) = Built i /\ inb x2 = [])
   /\ (forall x l x', ready x = false -> xstep x l = Some x' -> l <> XWake -> (forall c, l <> XFetch c) ->
         ready x' = false /\ (forall lim takes, xstep x (XBuildRound lim takes) = None)).
 Proof. split; [exact wake_builds_leftover | exact leftover_needs_wake]. Qed.
@@ -105,3 +105,14 @@ Lemma C18_collapse_follower_result_l :
   /\ (forall s c f r, c_call s c = CWait f -> c_fres s f = Some r ->
         exists s', cstep s (CDeliver c) = Some s' /\ c_call s' c = CRet r).
 Proof. split; [exact collapse_follower_result|]. split; [exact collapse_abort_frame | exact collapse_deliver_enabled]. Qed.
+
+(* ---------------------------------------------------------------- helper definitions of the Examples in Props.v *)
+Definition get (o : option state) : state := match o with Some s => s | None => init end.
+Definition ex_run1 : list label :=
+  [Submit 7 0; Submit 8 1; Build 7 1; Build 8 2; Store 7; Store 8;
+   RecvLoad 1 2 8; RecvFinish 1; RecvLoad 0 1 7; RecvFinish 0; Return 8; Return 7].
+Definition xget (o : option sys) : sys := match o with Some x => x | None => xinit end.
+Definition ex_builder : list xlabel :=
+  [XSubmit 1 0 0 false; XSubmit 2 0 12 false; XSubmit 3 1 5 false; XCore (Abort 3 ECtx); XFetch 1; XFetch 2; XFetch 3].
+Definition mixed_queue : list xlabel := [XSubmit 1 0 0 false; XSubmit 2 0 0 true; XSubmit 3 0 0 false; XSubmit 4 0 0 true].
+Definition pget (o : option pstate) : pstate := match o with Some p => p | None => pinit end.
